@@ -579,7 +579,7 @@ def iso(abs_ms):
     return (EPOCH + datetime.timedelta(milliseconds=abs_ms)).strftime("%Y-%m-%dT%H:%M:%S.%f")[:-3] + "Z"
 
 
-def cli_args(cmd, src, dst, tree, o, chs=(), symbolic=False, comma=False, float_time=False):
+def cli_args(cmd, src, dst, tree, o, chs=(), symbolic=False, comma=False, float_time=False, rel_end=False):
     """argument vector for digital_rf.drf_command.main"""
     base_ms = tree.base_s * 1000
     a = [cmd, src, dst]
@@ -598,7 +598,11 @@ def cli_args(cmd, src, dst, tree, o, chs=(), symbolic=False, comma=False, float_
         a += ["-s", ("%d.%03d" % (v // 1000, v % 1000)) if float_time else iso(v)]
     if o["he"]:
         v = base_ms + o["e"]
-        a += ["-e", ("%d.%03d" % (v // 1000, v % 1000)) if float_time else iso(v)]
+        if rel_end and o["hs"]:
+            dv = o["e"] - o["s"]   # '+seconds' relative to the start time
+            a += ["-e", "+%d.%03d" % (dv // 1000, dv % 1000)]
+        else:
+            a += ["-e", ("%d.%03d" % (v // 1000, v % 1000)) if float_time else iso(v)]
     if not o["drf"]:
         a.append("--nodrf")
     if not o["dmd"]:
@@ -612,64 +616,181 @@ def cli_args(cmd, src, dst, tree, o, chs=(), symbolic=False, comma=False, float_
     return a
 
 
-def transfer_event(digital_rf, tree, src, dst, cmd, o, chs=(), symbolic=False, comma=False, float_time=False, pre=()):
-    """run one real `drf cp|mv|ln` and project source and destination before and after.
-    `pre`: file ids that already exist in the destination (content 'old')."""
-    from digital_rf import drf_command, list_drf
+class TransferWorld:
+    """a materialised source tree that persists over a sequence of real `drf cp|mv|ln` commands, each into a fresh
+    destination directory; projections before/after every command"""
 
-    tree.materialise(src, content=lambda i, f: ("file %d %s" % (i, f["rel"])).encode())
-    if os.path.exists(dst):
-        shutil.rmtree(dst)
-    os.makedirs(dst)
-    rel2id = {f["rel"]: i + 1 for i, f in enumerate(tree.files)}
-    s0 = snapshot(src)
-    d0 = snapshot(dst)
-    argv = cli_args(cmd, src, dst, tree, o, chs, symbolic, comma, float_time)
-    # the equivalent listing, asked of the real ilsdrf with the same options (the property's own wording)
-    eq = []
-    eq_raised = False
-    try:
-        for c in (chs or [""]):
-            for p in list_drf.lsdrf(os.path.join(src, c) if c else src, **_kwargs(tree, o, o["rev"])):
-                eq.append(rel2id.get(os.path.relpath(p, src), 0))
-    except Exception:
-        eq_raised = True
-    raised = False
-    exc = None
-    try:
-        drf_command.main(argv)
-    except SystemExit as ex:
-        raised = bool(ex.code)
-        exc = "SystemExit %s" % ex.code
-    except Exception as ex:
-        raised = True
-        exc = "%s: %s" % (type(ex).__name__, ex)
-    s1 = snapshot(src)
-    d1 = snapshot(dst)
-    new = sorted(set(d1) - set(d0))
-    moved = []
-    for rel in new:
-        digest, ino, link = d1[rel]
-        i = rel2id.get(rel, 0)
-        so = s0.get(rel)
-        moved.append(dict(
-            id=i,
-            same=bool(so) and so[0] == digest,                       # byte-identical to the source file it is named after
-            hard=bool(so) and rel in s1 and s1[rel][1] == ino and link is None,   # shares the inode with the source
-            sym=link is not None and os.path.realpath(os.path.join(dst, rel)) == os.path.realpath(os.path.join(src, rel)),
-        ))
-    ev = dict(
-        ev="xfer", cmd=cmd, sym=symbolic, o=o,
-        scope=[tree.view(c) for c in (chs or [""])],
-        raised=raised,
-        new=moved,
-        src_before=sorted(rel2id.get(r, 0) for r in s0),
-        src_after=sorted(rel2id.get(r, 0) for r in s1),
-        src_changed=sorted(rel2id.get(r, 0) for r in s1 if r in s0 and s0[r][0] != s1[r][0]),
-        dst_lost=len([r for r in d0 if r not in d1 or d1[r][0] != d0[r][0]]),
-        eq=sorted(set(eq)), eq_raised=eq_raised,
-        argv=argv[:1] + argv[3:],
-    )
-    if exc:
-        ev["exc"] = exc
-    return ev
+    def __init__(self, tree, base, materialise=True):
+        self.tree = tree
+        self.src = os.path.join(base, "src")
+        self.base = base
+        self.nd = 0
+        if materialise:
+            tree.materialise(self.src, content=lambda i, f: ("file %d %s" % (i, f["rel"])).encode())
+        self.rel2id = {f["rel"]: i + 1 for i, f in enumerate(tree.files)}
+        self.snap = snapshot(self.src)
+        stray = [r for r in self.snap if r not in self.rel2id]
+        if stray:
+            raise ValueError("files in the source tree that the abstract tree does not know: %s" % stray[:5])
+
+    def dst(self, d):
+        return os.path.join(self.base, "dst%d" % d)
+
+    def run(self, cmd, o, chs=(), symbolic=False, comma=False, float_time=False, rel_end=False):
+        from digital_rf import drf_command, list_drf
+
+        tree, src = self.tree, self.src
+        self.nd += 1
+        d = self.nd
+        dst = self.dst(d)
+        os.makedirs(dst)
+        s0 = self.snap
+        argv = cli_args(cmd, src, dst, tree, o, chs, symbolic, comma, float_time, rel_end)
+        # the equivalent listing, asked of the real lsdrf with the same options (the property's own wording)
+        eq = []
+        eq_raised = False
+        try:
+            for c in (chs or [""]):
+                for p in list_drf.lsdrf(os.path.join(src, c) if c else src, **_kwargs(tree, o, o["rev"])):
+                    eq.append(self.rel2id.get(os.path.relpath(p, src), 0))
+        except Exception:
+            eq_raised = True
+        raised = False
+        exc = None
+        try:
+            drf_command.main(argv)
+        except SystemExit as ex:
+            raised = bool(ex.code)
+            exc = "SystemExit %s" % ex.code
+        except Exception as ex:
+            raised = True
+            exc = "%s: %s" % (type(ex).__name__, ex)
+        s1 = snapshot(src)
+        d1 = snapshot(dst)
+        new = []
+        for rel in sorted(d1):
+            digest, ino, link = d1[rel]
+            so = s0.get(rel)
+            new.append(dict(
+                id=self.rel2id.get(rel, 0) if so else 0,
+                same=bool(so) and so[0] == digest,                                   # byte-identical to the source file of that path
+                hard=bool(so) and link is None and rel in s1 and s1[rel][1] == ino,  # shares the inode with the source file
+                sym=link is not None and os.path.realpath(os.path.join(dst, rel)) == os.path.realpath(os.path.join(src, rel)),
+            ))
+        self.snap = s1
+        ev = dict(
+            ev="xfer", cmd=cmd, sym=symbolic, o=o, d=d,
+            scope=[tree.view(c) for c in (chs or [""])],
+            raised=raised, new=new,
+            src_after=sorted(self.rel2id.get(r, 0) for r in s1),
+            src_changed=sorted(self.rel2id.get(r, 0) for r in s1 if r in s0 and s0[r][0] != s1[r][0]),
+            eq=sorted(set(eq)), eq_raised=eq_raised,
+            argv=argv[:1] + argv[3:],
+        )
+        if exc:
+            ev["exc"] = exc
+        return ev
+
+
+# ---- real recordings for the reader comparison of C18 -----------------------------------------------------------
+RATE = 10          # samples per second of the recorded RF and metadata channels
+FILE_MS = 2000
+SUB_S = 10
+
+
+def make_recording(digital_rf, np, rng, base):
+    """an RF channel `rf` and a metadata channel `rf/metadata` written by the real writers over ~3 subdirectories with a gap;
+    returns (tree, truth) where the tree's descriptors come from the write plan and are verified against the produced names"""
+    src = os.path.join(base, "src")
+    if os.path.exists(base):
+        shutil.rmtree(base)
+    os.makedirs(os.path.join(src, "rf"))
+    base_s = 1700000000 + rng.randrange(0, 1000) * SUB_S
+    k0 = base_s * RATE
+    # blocks of samples (rebased sample index, length): contiguous run, a gap, another run
+    n1 = rng.randrange(60, 140)
+    gap = rng.randrange(5, 80)
+    n2 = rng.randrange(40, 120)
+    off = rng.randrange(0, 30)
+    runs = [(off, n1), (off + n1 + gap, n2)]
+    w = digital_rf.DigitalRFWriter(os.path.join(src, "rf"), np.int16, SUB_S, FILE_MS, k0, RATE, 1, uuid_str="c18",
+                                   is_complex=False, num_subchannels=1, is_continuous=False, marching_periods=False)
+    truth = {}
+    for a, n in runs:
+        data = np.array([(7 * (a + j) + 3) % 30011 - 15000 for j in range(n)], dtype=np.int16)
+        w.rf_write(data, a)
+        for j in range(n):
+            truth[a + j] = int(data[j])
+    w.close()
+    mdir = os.path.join(src, "rf", "metadata")
+    os.makedirs(mdir)
+    mw = digital_rf.DigitalMetadataWriter(mdir, SUB_S, FILE_MS // 1000, RATE, 1, "metadata")
+    mtruth = {}
+    for a in sorted(rng.sample(range(off, off + n1 + gap + n2), 9)):
+        mw.write(k0 + a, {"v": np.int64(a * 3 + 1)})
+        mtruth[a] = a * 3 + 1
+    del mw
+    t = Tree(base_s)
+    c1 = t.chan("rf")
+    c2 = t.chan("rf/metadata")
+    t.prop(c1, "drfprop")
+    t.prop(c2, "dmdprop")
+    for ch, kind, keys in ((c1, "rf", truth), (c2, "md", mtruth)):
+        times = sorted({(a * 1000 // RATE) // FILE_MS * FILE_MS for a in keys})
+        for tm in times:
+            sd = t.sub(ch, tm // (SUB_S * 1000) * SUB_S * 1000)
+            t.data(ch, sd, kind, tm)
+    produced = set(snapshot(src))
+    planned = {f["rel"] for f in t.files}
+    if produced != planned:
+        raise ValueError("write plan and produced files differ: %s" % sorted(produced ^ planned)[:6])
+    t.root = src
+    t.ids = {os.path.join(src, f["rel"]): i + 1 for i, f in enumerate(t.files)}
+    return t, dict(k0=k0, rf=truth, md=mtruth)
+
+
+def blocks_of(samples):
+    """{index: value} -> [[start, length, [values...]], ...] of maximal contiguous runs"""
+    out = []
+    for k in sorted(samples):
+        if out and out[-1][0] + out[-1][1] == k:
+            out[-1][1] += 1
+            out[-1][2].append(samples[k])
+        else:
+            out.append([k, 1, [samples[k]]])
+    return out
+
+
+def reader_events(digital_rf, np, world, truth, ev):
+    """reader on the destination of a transfer against the source truth, for the period of the transferred files"""
+    tree = world.tree
+    dst = world.dst(ev["d"])
+    out = []
+    ids = [n["id"] for n in ev["new"] if n["id"]]
+    kinds = {tree.files[i - 1]["kind"] for i in ids}
+    rf_t = sorted(tree.files[i - 1]["t"] for i in ids if tree.files[i - 1]["kind"] == "rf")
+    md_t = sorted(tree.files[i - 1]["t"] for i in ids if tree.files[i - 1]["kind"] == "md")
+    k0 = truth["k0"]
+    if rf_t and "drfprop" in kinds:
+        a, b = rf_t[0] * RATE // 1000, (rf_t[-1] + FILE_MS) * RATE // 1000 - 1
+        want = blocks_of({k: v for k, v in truth["rf"].items() if a <= k <= b})
+        try:
+            r = digital_rf.DigitalRFReader(dst)
+            got = []
+            for st, n in sorted(r.get_continuous_blocks(k0 + a, k0 + b, "rf").items()):
+                got.append([int(st - k0), int(n), [int(x) for x in r.read_vector_raw(st, n, "rf").reshape(-1)]])
+            out.append(dict(ev="rd", ch="rf", ok=True, want=want, got=got))
+        except Exception as ex:
+            out.append(dict(ev="rd", ch="rf", ok=False, want=want, got=[], exc="%s: %s" % (type(ex).__name__, ex)))
+    if md_t and "dmdprop" in kinds:
+        want, got = [], []
+        try:
+            mr = digital_rf.DigitalMetadataReader(os.path.join(dst, "rf", "metadata"))
+            for tm in md_t:
+                a, b = tm * RATE // 1000, (tm + FILE_MS) * RATE // 1000 - 1
+                want += [[k, v] for k, v in sorted(truth["md"].items()) if a <= k <= b]
+                got += [[int(k - k0), int(v)] for k, v in mr.read(k0 + a, k0 + b, "v").items()]
+            out.append(dict(ev="rd", ch="md", ok=True, want=want, got=got))
+        except Exception as ex:
+            out.append(dict(ev="rd", ch="md", ok=False, want=want, got=[], exc="%s: %s" % (type(ex).__name__, ex)))
+    return out
